@@ -1,6 +1,7 @@
 import Amgcl.Proofs.QRReflector
 import Amgcl.Proofs.QRThin
 import Amgcl.Proofs.QRSolve
+import Amgcl.Proofs.QRSolveWide
 import Amgcl.Proofs.QRLeastSquares
 import Amgcl.Proofs.QRReal
 import Amgcl.Proofs.C16bExamples
@@ -11,7 +12,7 @@ The model mirrors `amgcl/detail/qr.hpp` loop by loop on the flat buffer with exp
 `apply_reflector` = ZLARF, `compute` = ZGEQR2, `factorize` = ZUNG2R, `solve`) and is tied to the real template by the exact
 correspondence of `harness/h_direct.cpp` (ops `direct_qr_model`, `direct_qr_solve_model`, `direct_qr_seq`).  Only property
 theorems live here; helper lemmas: `Amgcl/Proofs/{QRArray,QRHouse,QRReflector,QRStep,QRCompute,QRFactor,QRThin,QRSolve,
-QRLeastSquares,QRReal,C16bExamples}.lean`.
+QRSolveWide,QRLeastSquares,QRReal,C16bExamples}.lean`.
 
 **The square root** is a parameter `sqrt : K → K` of the model.  Every theorem holds over every linearly ordered field and
 asks of `sqrt` only that it returns an *exact* root (`sqrt x · sqrt x = x`, no sign condition: the code takes `-|sqrt …|`
@@ -34,7 +35,10 @@ wide branch of `solve` (`Layout.transpose`).  All statements hold for an arbitra
 * `qr_factorize` — after `factorize`: `A = Q_k·R_k`, `Q_kᵀ·Q_k = 1`, `R` upper trapezoidal, the columns `≥ k` of `Q` vanish;
   for every shape (tall, square, wide); `qr_factorize_row_major` / `qr_factorize_col_major` on a fresh object.
 * `qr_solve_least_squares` — `rows ≥ cols`, linearly independent columns: `solve` returns the least-squares solution (normal
-  equations and minimality of the residual); `qr_solve_square` — square non-singular: `A·x = b`.
+  equations and minimality of the residual); `qr_solve_square` — square non-singular: `A·x = b`;
+  `qr_solve_min_norm` — `rows < cols`, linearly independent rows: `solve` returns the minimum-norm solution (`A·x = b`,
+  `x ∈ range Aᵀ`, `‖x‖² ≤ ‖y‖²` for every solution `y`); here the roots taken are those of `compute` on the transposed matrix
+  (swapped strides), as in the code.
 -/
 namespace Amgcl.C16b
 open Amgcl Amgcl.QRModel Matrix
@@ -237,10 +241,69 @@ theorem qr_solve_square_det (sqrt : K → K) (n rs cs : Nat) (A b : Array K) (o 
     x.size = n ∧ matOf A rs cs n n *ᵥ vecOf x n = vecOf b n :=
   qr_solve_square sqrt n rs cs A b o L hex (fun _ hy => Matrix.eq_zero_of_mulVec_eq_zero hdet hy)
 
+theorem matOf_transpose (A : Array K) (rs cs m n : Nat) : (matOf A rs cs m n)ᵀ = matOf A cs rs n m := by
+  ext i j
+  show A.getD (j.val * rs + i.val * cs) 0 = A.getD (i.val * cs + j.val * rs) 0
+  rw [Nat.add_comm]
+
+/-- `solve` for `rows < cols` and a matrix with linearly independent rows (`Aᵀ·y = 0 → y = 0`): the result solves `A·x = b`,
+lies in the range of `Aᵀ`, and has minimal norm among all solutions.  The roots taken are those of `compute` on the
+transposed matrix (`cols×rows`, strides swapped). -/
+theorem qr_solve_min_norm (sqrt : K → K) (rows cols rs cs : Nat) (A b : Array K) (o : Obj K) (h : rows < cols)
+    (L : Layout rows cols rs cs A.size) (hex : ExactRoots sqrt cols rows cs rs A #[])
+    (hrank : ∀ y : Fin rows → K, (matOf A rs cs rows cols)ᵀ *ᵥ y = 0 → y = 0) :
+    let x := (solveS sqrt rows cols rs cs A b o).1
+    x.size = cols ∧ matOf A rs cs rows cols *ᵥ vecOf x cols = vecOf b rows ∧
+    (∃ w : Fin rows → K, vecOf x cols = (matOf A rs cs rows cols)ᵀ *ᵥ w) ∧
+    ∀ y : Fin cols → K, matOf A rs cs rows cols *ᵥ y = vecOf b rows → vecOf x cols ⬝ᵥ vecOf x cols ≤ y ⬝ᵥ y := by
+  intro x
+  have hT : (matOf A rs cs rows cols)ᵀ = matOf A cs rs cols rows := matOf_transpose A rs cs rows cols
+  have hT' : matOf A rs cs rows cols = (matOf A cs rs cols rows)ᵀ := by rw [← hT, Matrix.transpose_transpose]
+  obtain ⟨_, _, h3, h4⟩ := compute_QR sqrt cols rows cs rs A o.tau L.transpose
+    (ExactRoots_indep sqrt cols rows cs rs A #[] o.tau hex)
+  rw [Nat.min_eq_right (Nat.le_of_lt h)] at h3 h4
+  set F := (computeS sqrt cols rows cs rs A o.tau).1 with hF
+  set T := (computeS sqrt cols rows cs rs A o.tau).2
+  have hR0 : ∀ (l : Fin cols) (c : Fin rows), rows ≤ l.val → Rfull F cs rs cols rows l c = 0 := by
+    intro l c hl; unfold Rfull getR; rw [if_pos (by have := c.isLt; omega)]
+  have hup : ∀ (l : Fin cols) (c : Fin rows), c.val < l.val → Rfull F cs rs cols rows l c = 0 := by
+    intro l c hl; unfold Rfull getR; rw [if_pos hl]
+  have hdiag : ∀ i : Fin rows, Rfull F cs rs cols rows ⟨i.val, by have := i.isLt; omega⟩ i ≠ 0 := by
+    intro i
+    exact qr_diag_ne_zero (Nat.le_of_lt h) _ (Rfull F cs rs cols rows) (matOf A cs rs cols rows) h4 hR0 hup
+      (fun y hy => hrank y (by rw [hT]; exact hy)) i
+  have hd : ∀ i, i < rows → F.getD (i * cs + i * rs) 0 ≠ 0 := by
+    intro i hi
+    have := hdiag ⟨i, hi⟩
+    unfold Rfull getR at this
+    rw [if_neg (Nat.lt_irrefl i)] at this
+    exact this
+  obtain ⟨g, hg, s1, s2⟩ := solveS_wide_spec sqrt rows cols rs cs A b o h hd
+  have hfs : (Rfull F cs rs cols rows)ᵀ *ᵥ (fun l : Fin cols => if l.val < rows then g.getD l.val 0 else 0) = vecOf b rows := by
+    funext j
+    have hj := j.isLt
+    show ∑ l : Fin cols, getR F cs rs l.val j.val * (if l.val < rows then g.getD l.val 0 else 0) = b.getD j.val 0
+    rw [Fin.sum_univ_eq_sum_range (fun l => getR F cs rs l j.val * (if l < rows then g.getD l 0 else 0)) cols,
+      Finset.range_eq_Ico, ← Finset.sum_Ico_consecutive _ (Nat.zero_le (j.val + 1)) (by omega : j.val + 1 ≤ cols),
+      Finset.sum_eq_zero (s := Finset.Ico (j.val + 1) cols) (fun l hl => by
+        have := (Finset.mem_Ico.mp hl).1
+        unfold getR; rw [if_pos (by omega), zero_mul]), add_zero, ← hg j.val hj, Finset.range_eq_Ico]
+    refine Finset.sum_congr rfl (fun l hl => ?_)
+    have := (Finset.mem_Ico.mp hl).2
+    unfold getR; rw [if_neg (by omega), if_pos (by omega)]
+  obtain ⟨w1, w, w2⟩ := qr_wide_solve (Nat.le_of_lt h) _ (Rfull F cs rs cols rows) (matOf A cs rs cols rows) h3 h4 hR0 hup hdiag
+    (vecOf b rows) (fun l : Fin cols => if l.val < rows then g.getD l.val 0 else 0)
+    (fun l hl => if_neg (by omega)) hfs
+  have hAx : matOf A rs cs rows cols *ᵥ vecOf x cols = vecOf b rows := by rw [hT', s2]; exact w1
+  have hxw : vecOf x cols = (matOf A rs cs rows cols)ᵀ *ᵥ w := by rw [hT, s2]; exact w2
+  exact ⟨s1, hAx, ⟨w, hxw⟩, fun y hy => min_norm_of_range _ _ _ w hAx hxw y hy⟩
+
 example := qr_solve_least_squares_of_diag Amgcl.rsqrt 3 2 2 1 C16bEx.exTallRM #[1, 2, 3] Obj.fresh (by decide)
   (Layout.rowMajor 3 2) C16bEx.exTallRM_roots (by decide +kernel)
 example := qr_solve_least_squares Amgcl.rsqrt 3 2 2 1 C16bEx.exTallRM #[1, 2, 3] ⟨#[5], #[1, 1, 1, 1], #[]⟩ (by decide)
   (Layout.rowMajor 3 2) C16bEx.exTallRM_roots C16bEx.exTallRM_rank
+example := qr_solve_min_norm Amgcl.rsqrt 2 3 3 1 C16bEx.exTallCM #[1, 2] Obj.fresh (by decide) (Layout.rowMajor 2 3)
+  C16bEx.exTallCM_roots C16bEx.exWide_rank
 example := qr_solve_square_det Amgcl.rsqrt 2 2 1 C16bEx.exSq #[1, 2] Obj.fresh (Layout.rowMajor 2 2) C16bEx.exSq_roots
   C16bEx.exSq_det
 
